@@ -6,6 +6,7 @@
 -/
 import QExPy.Model.Corr
 import QExPy.Real
+import QExPy.Props.C10
 
 namespace QExPy
 open Corr
@@ -831,6 +832,25 @@ theorem C04_inferred_never_rejected (s : State ℝ) (w : Which) (f : Form) (a b 
     simp only [ka, kb, Kind.isEV, Bool.not_true, Bool.or_self, Bool.false_eq_true, if_false]
     exact hmeth
   | meth => exact hmeth
+
+/-- **C04 with C10 (what is inferred).** For repeated measurements whose `std` is the sample
+    standard deviation of their readings, the number filled in for a missing covariance is exactly
+    the sample covariance of the two reading arrays and for a missing correlation exactly its
+    normalised form: by Cauchy–Schwarz (`C10_inferred_accepted`) the clip to the bound is the
+    identity on the exact values, it only removes rounding error in the floating-point run. -/
+theorem C04_inferred_is_sample_cov (qa qb : Qty ℝ) (hl : qa.raw.length = qb.raw.length)
+    (pa : qa.plain = true) (pb : qb.plain = true)
+    (ha : qa.std = Stats.std1 qa.raw) (hb : qb.std = Stats.std1 qb.raw) :
+    infer qa qb .cov = some (Stats.cov1 qa.raw qb.raw) ∧
+    infer qa qb .corr = some (Stats.corr qa.raw qb.raw) := by
+  obtain ⟨_, h2, h3⟩ := C10_inferred_accepted qa.raw qb.raw hl
+  have e1 : (Corr.one : ℝ) = 1 := by unfold Corr.one; simp
+  unfold infer
+  simp only [hl, pa, pb, bne_self_eq_false, Bool.not_true, Bool.or_false, Bool.false_eq_true,
+    if_false, num_mul, num_neg, num_div, ha, hb, e1]
+  refine ⟨by rw [h2], ?_⟩
+  rw [h3]
+  rfl
 
 /-! ### non-vacuity: a concrete history -/
 
